@@ -227,8 +227,8 @@ def obligations(tier):
     obls = []
 
     def add(name, shard, nint, k):
-        sh = dict(shard)
-        sh.update(dom)
+        sh = dict(dom)
+        sh.update(shard)
         obls.append({"name": name, "body": "body", "pre": "pre", "shard": sh,
                      "types": ["int"] * nint + ["bool"] * k, "budget": B})
     kp = 3 if q else 4
@@ -252,7 +252,9 @@ def obligations(tier):
                     {"kind": "partition", "k": k, "slow": False, "n": n, "keys": True}, k + 1 + k, k)
         if k <= kw:
             for keep in ("first", "last"):
-                add("timed_window_unique/%s/k=%d" % (keep, k),
-                    {"kind": "timed_window_unique", "k": k, "slow": False, "keys": True, "keep": keep},
-                    k + 1 + k, k)
+                sh = {"kind": "timed_window_unique", "k": k, "slow": False, "keys": True, "keep": keep}
+                if q:
+                    sh["imax"] = 2
+                    sh["gmax"] = 3
+                add("timed_window_unique/%s/k=%d" % (keep, k), sh, k + 1 + k, k)
     return obls
